@@ -422,8 +422,41 @@ def mc_recover(res, pid, tier):
         raise core.ToolError("vacuity: a recovery that succeeds after 2 shifts was not refuted by MC_Recover")
 
 
+def mc_statetable(res, pid, tier):
+    """bounded model: the cell-filling algorithm under every order of the candidate reductions
+    against Yacc's rules (StateTable.YaccCell), on the canonical automata of the conflict grammars"""
+    insts = [dict(id=c["id"], y=c["y"], kind=c["kind"], width=32, sections=[], inputs={}, recovery="off", iseed=1, budget_ms=100)
+             for c in catalog.CAT if set(c["tags"]) & {"conflict", "conflicts", "prec", "rr", "arconf"} and c["kind"] != "eco"]
+    jf = os.path.join(res.wd, "mcs-job.json")
+    of = os.path.join(res.wd, "mcs-out.ndjson")
+    gf = os.path.join(res.wd, "mcs-grammars.ndjson")
+    with open(jf, "w") as f:
+        json.dump(dict(seed=1, instances=insts, workers=4), f)
+    core.run_vh(["lr", jf, of])
+    n = 0
+    with open(gf, "w") as f:
+        for line in open(of):
+            if '"ev":"grammar"' in line:
+                f.write(line)
+                n += 1
+    cfg = os.path.join(res.wd, "MC_StateTable.cfg")
+    with open(cfg, "w") as f:
+        f.write("SPECIFICATION Spec\nCONSTANTS\n  ParseAtLeast = 3\n  TryParseAtMost = 250\nINVARIANT Inv\nCHECK_DEADLOCK FALSE\n")
+    r = core.run_tlc("MC_StateTable", cfg, dict(GRAMMARS=gf), res.wd, timeout=1800, workers=8, heap="8g")
+    res.add_tlc(r)
+    res.notes["mc_statetable"] = dict(grammars=n, distinct=r["distinct"],
+                                      what="every state x token of the canonical automaton x every order of the candidate reductions, then the shift: "
+                                           "final action = YaccCell, accept/reduce clash detected in any order, |rr| = |candidates| - 1, sr iff default-resolved")
+    if r["error"]:
+        res.violation("bounded model MC_StateTable.tla: " + r["error"][:500], dict(kind="mc"))
+    elif not r["finished"]:
+        res.cov["inconclusive"] += 1
+
+
 def main(pid, tier, replay=None):
     res = run(pid, tier, replay)
+    if pid == "C03" and not replay:
+        mc_statetable(res, pid, tier)
     if pid == "C07" and not replay:
         mc_recover(res, pid, tier)
     if pid in ("C01", "C02") and not replay:
